@@ -25,7 +25,11 @@ use lightning_signer::lightning::ln::chan_utils::{build_commitment_secret, make_
 use lightning_signer::lightning::sign::ChannelSigner;
 use lightning_signer::lightning::types::payment::PaymentHash;
 use lightning_signer::monitor::ChainMonitorBase;
-use lightning_signer::node::{Node, SpendType};
+use lightning_signer::node::{Node, NodeServices, SpendType};
+use lightning_signer::persist::Persist;
+use lightning_signer::util::clock::StandardClock;
+use vls_persist::kvv::memory::MemoryKVVStore;
+use vls_persist::kvv::{JsonFormat, KVVPersister};
 use lightning_signer::policy::filter::{FilterResult, FilterRule, PolicyFilter};
 use lightning_signer::policy::onchain_validator::OnchainValidatorFactory;
 use lightning_signer::policy::simple_validator::{
@@ -363,6 +367,9 @@ pub fn classify(st: &Status) -> &'static str {
 }
 
 pub struct ChanWorld {
+    /// false: `setup_channel` refused this setup; the channel id exists as a stub and every later request on
+    /// it is still sent to the implementation (it must answer "channel not ready")
+    pub ready: bool,
     pub node_ctx: TestNodeContext,
     pub chan_ctx: TestChannelContext,
     pub setup: SetupNums,
@@ -430,6 +437,9 @@ pub struct World {
     pub refused: usize,
     /// the harness's own record of the allowlist contents (script ids), updated by every `allow` op
     pub allow_set: BTreeSet<u64>,
+    /// Some = the node runs on the real persister (`KVVPersister<MemoryKVVStore>`), so that `restart` can
+    /// discard the process state and restore it (`Node::restore_node`); used for cases containing `restart`
+    pub persister: Option<Arc<dyn Persist>>,
 }
 
 /// script universe of the close ops: sid 1..=4 wallet p2wpkh at index sid, 5..=6 wallet p2sh-p2wpkh at
@@ -518,7 +528,98 @@ impl World {
             accepted: 0,
             refused: 0,
             allow_set: BTreeSet::new(),
+            persister: None,
         }
+    }
+
+    fn services(&self, persister: Arc<dyn Persist>) -> NodeServices {
+        NodeServices {
+            validator_factory: self.pol.factory(),
+            starting_time_factory: make_genesis_starting_time_factory(Network::Testnet),
+            persister,
+            clock: Arc::new(StandardClock()),
+            trusted_oracle_pubkeys: vec![],
+        }
+    }
+
+    fn seed() -> [u8; 32] {
+        let mut seed = [0u8; 32];
+        seed.copy_from_slice(&hex::decode(TEST_SEED[1]).unwrap());
+        seed
+    }
+
+    /// a fresh node: on the dummy persister (as `test_utils::init_node`) or on the real one
+    fn make_node(&self) -> Arc<Node> {
+        match &self.persister {
+            None => {
+                let node = init_node(TEST_NODE_CONFIG, TEST_SEED[1]);
+                node.set_validator_factory(self.pol.factory());
+                node
+            }
+            Some(p) => {
+                let node = Arc::new(Node::new(TEST_NODE_CONFIG, &Self::seed(), vec![], self.services(p.clone())));
+                p.new_node(&node.get_id(), &TEST_NODE_CONFIG, &*node.get_state()).unwrap();
+                p.new_tracker(&node.get_id(), &node.get_tracker()).unwrap();
+                node.add_allowlist(&[]).unwrap();
+                node
+            }
+        }
+    }
+
+    /// `restart`: drop the node, restore it from what the persister holds
+    fn op_restart(&mut self) -> String {
+        let p = match &self.persister {
+            Some(p) => p.clone(),
+            None => return "bad-op".into(),
+        };
+        if self.node.is_none() {
+            return "bad-op".into();
+        }
+        let restored = catch_unwind(AssertUnwindSafe(|| {
+            let (node_id, entry) = p.get_nodes().map_err(|e| format!("{:?}", e))?.into_iter().next().ok_or("no node".to_string())?;
+            Node::restore_node(&node_id, entry, &Self::seed(), self.services(p.clone())).map_err(|e| e.message().to_string())
+        }));
+        match restored {
+            Ok(Ok(node)) => {
+                self.node = Some(node.clone());
+                if let Some(cw) = &mut self.chan {
+                    cw.node_ctx = TestNodeContext { node, secp_ctx: Secp256k1::signing_only() };
+                }
+                self.out.tags.insert("restart".into());
+                if self.chan.as_ref().map(|c| c.ready).unwrap_or(false) {
+                    format!("ok {}", self.digest())
+                } else {
+                    "ok".into()
+                }
+            }
+            Ok(Err(e)) => format!("restart-failed {}", e),
+            Err(_) => {
+                self.dead = true;
+                "restart-panic".into()
+            }
+        }
+    }
+
+    /// `allow_add` / `allow_rm`: incremental allowlist updates (entries that are absent / already present
+    /// are legal); the harness's own record follows
+    fn op_allow_delta(&mut self, add: bool, a: &[u64]) -> String {
+        let node = match &self.node {
+            Some(n) => n.clone(),
+            None => return "ok".into(),
+        };
+        let list: Vec<String> =
+            a.iter().map(|sid| Address::from_script(&script_of(&node, *sid), Network::Testnet).unwrap().to_string()).collect();
+        let r = if add { node.add_allowlist(&list) } else { node.remove_allowlist(&list) };
+        if r.is_ok() {
+            for sid in a {
+                if add {
+                    self.allow_set.insert(*sid);
+                } else {
+                    self.allow_set.remove(sid);
+                }
+            }
+        }
+        "ok".into()
     }
 
     fn violation(&mut self, at: usize, kind: &str, desc: String) {
@@ -554,7 +655,16 @@ impl World {
             Ok(Ok(v)) => {
                 self.accepted += 1;
                 self.out.tags.insert("ok".into());
+                if !self.chan.as_ref().map(|c| c.ready).unwrap_or(true) {
+                    let at = self.out.out.len();
+                    self.violation(at, "accepted-on-refused-setup",
+                        "a request was accepted on a channel whose setup_channel had been refused (unsafe type / contest delay / upfront script)".into());
+                }
                 (format!("ok {}", self.digest()), Some(v))
+            }
+            Ok(Err(st)) if st.message().contains("channel not ready") => {
+                self.out.tags.insert("nochan:stub".into());
+                ("nochan".into(), None)
             }
             Ok(Err(st)) => {
                 self.refused += 1;
@@ -617,8 +727,7 @@ impl World {
                 self.pol = pol;
                 match &self.node {
                     None => {
-                        let node = init_node(TEST_NODE_CONFIG, TEST_SEED[1]);
-                        node.set_validator_factory(self.pol.factory());
+                        let node = self.make_node();
                         self.node = Some(node);
                     }
                     Some(node) => node.set_validator_factory(self.pol.factory()),
@@ -638,6 +747,9 @@ impl World {
                 }
                 "ok".into()
             }
+            "allow_add" => self.op_allow_delta(true, &a),
+            "allow_rm" => self.op_allow_delta(false, &a),
+            "restart" => self.op_restart(),
             "setup" => self.op_setup(idx, &a),
             "chain" => self.op_chain(&a),
             "blk" => self.op_blk(&a),
@@ -656,13 +768,12 @@ impl World {
         if a.len() != 9 || a[3] > 65535 || a[4] > 65535 || a[5] > 3 {
             return "bad-op".into();
         }
-        if self.chan.is_some() {
+        if self.chan.as_ref().map(|c| c.ready).unwrap_or(false) {
             return "already".into();
         }
         if self.node.is_none() {
             // no `policy` op yet: the default testnet policy (what the model starts with)
-            let node = init_node(TEST_NODE_CONFIG, TEST_SEED[1]);
-            node.set_validator_factory(self.pol.factory());
+            let node = self.make_node();
             self.node = Some(node);
         }
         let node = self.node.as_ref().unwrap().clone();
@@ -683,7 +794,7 @@ impl World {
         };
         let node_ctx = TestNodeContext { node: node.clone(), secp_ctx: Secp256k1::signing_only() };
         // stub + matching counterparty keys (test_utils); then the real setup_channel with our setup
-        let mut chan_ctx = match catch_unwind(AssertUnwindSafe(|| test_chan_ctx(&node_ctx, 1 + idx, sn.value))) {
+        let mut chan_ctx = match catch_unwind(AssertUnwindSafe(|| test_chan_ctx(&node_ctx, 1, sn.value))) {
             Ok(c) => c,
             Err(_) => return "bad-op".into(),
         };
@@ -739,6 +850,13 @@ impl World {
             Ok(Err(st)) => {
                 let c = classify(&st);
                 self.out.tags.insert(format!("setup:err:{}", c));
+                // the refused setup must leave the channel a stub: keep the context so that the following
+                // requests (and a repeated setup) still go to the implementation
+                self.chan = Some(ChanWorld {
+                    ready: false,
+                    node_ctx, chan_ctx, setup: sn, funding_tx, blocks: Vec::new(), chain_mode: 0, filler: 0,
+                    seen_cp: BTreeSet::new(), seen_hold: BTreeSet::new(), own_chain: (3, 0, 0), own_kinds: Vec::new(),
+                });
                 format!("err:{}", c)
             }
             Ok(Ok(_)) => {
@@ -761,6 +879,7 @@ impl World {
                         format!("upfront shutdown script sid {} neither wallet nor allowlisted", sn.upfront));
                 }
                 self.chan = Some(ChanWorld {
+                    ready: true,
                     node_ctx, chan_ctx, setup: sn, funding_tx, blocks: Vec::new(), chain_mode: 0, filler: 0,
                     seen_cp: BTreeSet::new(), seen_hold: BTreeSet::new(), own_chain: (3, 0, 0), own_kinds: Vec::new(),
                 });
@@ -786,6 +905,9 @@ impl World {
     }
 
     fn op_chain(&mut self, a: &[u64]) -> String {
+        if !self.chan.as_ref().map(|c| c.ready).unwrap_or(false) {
+            return "nochan".into();
+        }
         if a.len() != 3 {
             return "bad-op".into();
         }
@@ -846,10 +968,15 @@ impl World {
     }
 
     /// `blk <kind> <h> <fd> <cd>`: connect a real block through the node's tracker.
-    /// kind 0 = unrelated tx only, 1 = contains the funding tx, 2 = contains a tx spending the funding outpoint.
+    /// kind 0 = unrelated tx only, 1 = contains the funding tx, 2 = contains a plain tx spending the funding
+    /// outpoint (reads as a mutual close), 3 = contains the HOLDER's current commitment transaction, 4 = contains
+    /// the COUNTERPARTY's current commitment transaction (both read as unilateral closes; outputs stay unswept).
     /// (h, fd, cd) is what the generator expects afterwards; the line printed carries the real values.
     fn op_blk(&mut self, a: &[u64]) -> String {
-        if a.len() != 4 || a[0] > 2 {
+        if !self.chan.as_ref().map(|c| c.ready).unwrap_or(false) {
+            return "nochan".into();
+        }
+        if a.len() != 4 || a[0] > 5 {
             return "bad-op".into();
         }
         let cw = match &mut self.chan {
@@ -886,6 +1013,62 @@ impl World {
                 }],
                 output: vec![TxOut { value: Amount::from_sat(5000), script_pubkey: ScriptBuf::new_p2pkh(&lightning_signer::bitcoin::PubkeyHash::from_byte_array([4u8; 20])) }],
             }),
+            3 | 4 | 5 => {
+                // (5 = the counterparty's PREVIOUS, not yet revoked commitment: see finding F-C05-M1)
+                // a real UNILATERAL close: the holder's current commitment (3) or the counterparty's current
+                // commitment (4), rebuilt from what the signer itself holds as the current content; before any
+                // commitment exists a plain spend stands in
+                let kind = a[0];
+                let plain = Transaction {
+                    version: Version::TWO,
+                    lock_time: LockTime::ZERO,
+                    input: vec![TxIn {
+                        previous_output: cw.chan_ctx.setup.funding_outpoint,
+                        script_sig: ScriptBuf::new(),
+                        sequence: Sequence::MAX,
+                        witness: Witness::new(),
+                    }],
+                    output: vec![TxOut { value: Amount::from_sat(5000), script_pubkey: ScriptBuf::new_p2pkh(&lightning_signer::bitcoin::PubkeyHash::from_byte_array([4u8; 20])) }],
+                };
+                let cur = cw.node_ctx.node.with_channel(&cw.chan_ctx.channel_id, |c| {
+                    let e = &c.enforcement_state;
+                    Ok(if kind == 3 {
+                        e.current_holder_commit_info.clone().map(|i| (e.next_holder_commit_num - 1, i, None))
+                    } else if kind == 5 {
+                        match (&e.previous_counterparty_commit_info, e.previous_counterparty_point) {
+                            (Some(i), Some(p)) if e.next_counterparty_commit_num >= 2 => Some((e.next_counterparty_commit_num - 2, i.clone(), Some(p))),
+                            _ => None,
+                        }
+                    } else {
+                        match (&e.current_counterparty_commit_info, e.current_counterparty_point) {
+                            (Some(i), Some(p)) => Some((e.next_counterparty_commit_num - 1, i.clone(), Some(p))),
+                            _ => None,
+                        }
+                    })
+                }).ok().flatten();
+                let built = match cur {
+                    None => None,
+                    Some((n, info, point)) => catch_unwind(AssertUnwindSafe(|| {
+                        if kind == 3 {
+                            let ctx = channel_commitment(&cw.node_ctx, &cw.chan_ctx, n, info.feerate_per_kw,
+                                info.to_broadcaster_value_sat, info.to_countersigner_value_sat,
+                                info.offered_htlcs.clone(), info.received_htlcs.clone());
+                            ctx.tx.as_ref().unwrap().trust().built_transaction().transaction.clone()
+                        } else {
+                            let htlcs = lightning_signer::channel::Channel::htlcs_info2_to_oic(&info.offered_htlcs, &info.received_htlcs);
+                            cw.node_ctx.node.with_channel(&cw.chan_ctx.channel_id, |c| {
+                                let ctx = c.make_counterparty_commitment_tx(&point.unwrap(), n, info.feerate_per_kw,
+                                    info.to_countersigner_value_sat, info.to_broadcaster_value_sat, htlcs.clone());
+                                Ok(ctx.trust().built_transaction().transaction.clone())
+                            }).unwrap()
+                        }
+                    })).ok(),
+                };
+                if built.is_some() {
+                    self.out.tags.insert(format!("blk:unilateral:{}", if kind == 3 { "holder" } else { "counterparty" }));
+                }
+                txs.push(built.unwrap_or(plain));
+            }
             _ => {}
         }
         let node = cw.node_ctx.node.clone();
@@ -903,8 +1086,12 @@ impl World {
                 format!("ok {}", self.real_chain())
             }
             Ok(Err(e)) => format!("blk-refused {}", e),
-            Err(_) => {
+            Err(e) => {
                 self.dead = true;
+                let msg = e.downcast_ref::<String>().cloned().or_else(|| e.downcast_ref::<&str>().map(|s| s.to_string())).unwrap_or_default();
+                if std::env::var("VERIF_DEBUG_BLK").is_ok() {
+                    eprintln!("blk panic: {}", msg);
+                }
                 "harness-panic blk".into()
             }
         }
@@ -912,6 +1099,9 @@ impl World {
 
     /// `unblk <h> <fd> <cd>`: disconnect the tip block (reorg) through the real tracker
     fn op_unblk(&mut self, a: &[u64]) -> String {
+        if !self.chan.as_ref().map(|c| c.ready).unwrap_or(false) {
+            return "nochan".into();
+        }
         if a.len() != 3 {
             return "bad-op".into();
         }
@@ -1519,11 +1709,11 @@ impl World {
 }
 
 /// chain state implied by the blocks the harness connected on top of height 3 (kind 1 = funding tx,
-/// kind 2 = spend of the funding outpoint): depth = number of blocks from that block to the tip
+/// kinds 2/3/4 = a spend of the funding outpoint: plain, holder commitment, counterparty commitment): depth = number of blocks from that block to the tip
 fn own_chain_of(kinds: &[u64]) -> (u64, u64, u64) {
     let n = kinds.len() as u64;
-    let depth = |k: u64| kinds.iter().position(|b| *b == k).map(|i| n - i as u64).unwrap_or(0);
-    (3 + n, depth(1), depth(2))
+    let depth = |ks: &[u64]| kinds.iter().position(|b| ks.contains(b)).map(|i| n - i as u64).unwrap_or(0);
+    (3 + n, depth(&[1]), depth(&[2, 3, 4, 5]))
 }
 
 /// content of a commitment up to the order of its HTLCs (what `CommitmentInfo2` equality sees)
@@ -1548,6 +1738,9 @@ pub fn is_canonical(outs: &[TxOut]) -> bool {
 /// run a whole case
 pub fn run_case(ops: &[String]) -> CaseOut {
     let mut w = World::new();
+    if ops.iter().any(|o| o.starts_with("restart")) {
+        w.persister = Some(Arc::new(KVVPersister(MemoryKVVStore::new([6u8; 16]), JsonFormat)));
+    }
     for (i, op) in ops.iter().enumerate() {
         let line = match catch_unwind(AssertUnwindSafe(|| w.exec(i, op))) {
             Ok(l) => l,
@@ -1557,6 +1750,13 @@ pub fn run_case(ops: &[String]) -> CaseOut {
                 format!("harness-panic {}", msg.replace('\n', " "))
             }
         };
+        if std::env::var("VERIF_DEBUG_BLK").is_ok() && (op.starts_with("blk") || op.starts_with("unblk")) {
+            let want: Vec<&str> = op.split_whitespace().collect();
+            let exp = format!("ok {}", want[want.len() - 3..].join(" "));
+            if line != exp && line != "nochan" && line != "bad-op" && line != "dead" {
+                eprintln!("BLK-MISMATCH at {}: got `{}`\n{}", i, line, ops[..=i].join("\n"));
+            }
+        }
         w.out.out.push(line);
     }
     w.out.nontrivial = w.accepted > 0 && (w.refused > 0 || w.dead);
